@@ -24,6 +24,7 @@ import (
 	"github.com/zenon-network/go-zenon/chain/nom"
 	"github.com/zenon-network/go-zenon/common/db"
 	"github.com/zenon-network/go-zenon/common/types"
+	"github.com/zenon-network/go-zenon/vm/constants"
 	"github.com/zenon-network/go-zenon/vm/embedded/definition"
 
 	"verif/harness/fw"
@@ -76,9 +77,10 @@ func c02Run(c *fw.C, caseID string) {
 	var gossip []c02Gossip
 	deepAcks := 0
 	maxDepth := uint64(0)
+	inBurst := false
 	P.TemplateHook = func(tpl *nom.AccountBlock) {
 		// some user blocks explicitly acknowledge an older momentum F−d
-		if types.IsEmbeddedAddress(tpl.Address) || !tpl.MomentumAcknowledged.IsZero() || w.R.Intn(3) != 0 {
+		if inBurst || types.IsEmbeddedAddress(tpl.Address) || !tpl.MomentumAcknowledged.IsZero() || w.R.Intn(3) != 0 {
 			return
 		}
 		f := P.Height()
@@ -96,6 +98,7 @@ func c02Run(c *fw.C, caseID string) {
 		tpl.MomentumAcknowledged = m.Identifier()
 	}
 	nMomentums := 60 + r.Intn(90)
+	burstAt := 15 + r.Intn(30)
 	if c.Thorough() {
 		nMomentums = 120 + r.Intn(180)
 	}
@@ -196,6 +199,34 @@ func c02Run(c *fw.C, caseID string) {
 				}
 			}
 		}
+		if i == burstAt {
+			// a burst of calls to three contracts, all confirmed by one momentum: the pillar generates more receives
+			// than the next momentum can hold, so the rest is confirmed one or more momentums later and every follower
+			// applies those receives at a frontier that is PAST the momentum they acknowledge. The called methods read
+			// momentum-level state (frontier height / timestamp → fusion expiration, stake start time).
+			users := simnet.DefaultUsers()
+			okCalls := 0
+			inBurst = true
+			for k := 0; k < 600 && okCalls < 130; k++ {
+				u := users[k%len(users)]
+				var err error
+				switch (k / len(users)) % 3 {
+				case 0:
+					_, err = P.Send(u, types.PlasmaContract, types.QsrTokenStandard, big.NewInt(10*g.Zexp), definition.ABIPlasma.PackMethodPanic(definition.FuseMethodName, users[(k+1)%len(users)].Address))
+				case 1:
+					_, err = P.Send(u, types.StakeContract, types.ZnnTokenStandard, big.NewInt(1*g.Zexp), definition.ABIStake.PackMethodPanic(definition.StakeMethodName, int64(constants.StakeTimeUnitSec)))
+				default:
+					_, err = P.Send(u, types.AcceleratorContract, types.ZnnTokenStandard, big.NewInt(1), definition.ABIAccelerator.PackMethodPanic(definition.DonateMethodName))
+				}
+				if err == nil {
+					okCalls++
+				} else {
+					c.SetAdd("contract_burst_refusals", fmt.Sprintf("%d:%s", (k/len(users))%3, c05ErrClass(err)))
+				}
+			}
+			inBurst = false
+			c.Count("contract_burst_calls_accepted", okCalls)
+		}
 		if r.Intn(20) == 0 {
 			// a burst above the per-momentum limit: some blocks wait in the producer's pool for a later momentum,
 			// so the producer evaluated them at an older frontier than the follower will have when it applies them
@@ -223,6 +254,18 @@ func c02Run(c *fw.C, caseID string) {
 	}
 	P.OnBlock = nil
 	top := P.Height()
+	// what the followers will face: contract receives confirmed by a momentum that is more than one above the momentum
+	// they acknowledge (applied at a frontier past their acknowledged momentum)
+	for h := uint64(2); h <= top; h++ {
+		if d := P.Detailed(h); d != nil {
+			for _, b := range d.AccountBlocks {
+				if b.BlockType == nom.BlockTypeContractReceive && h-1 > b.MomentumAcknowledged.Height {
+					c.Count("contract_receives_applied_past_their_acknowledged_momentum", 1)
+					c.SetAdd("contract_receive_frontier_distance", fmt.Sprint(h-1-b.MomentumAcknowledged.Height))
+				}
+			}
+		}
+	}
 	c.Count("momentums_produced", int(top-1))
 	c.Count("account_blocks_accepted_by_producer", len(gossip))
 	c.Count("blocks_acknowledging_older_momentum", deepAcks)
